@@ -25,6 +25,7 @@ type Case struct {
 	Tags   []string       `json:"tags,omitempty"`   // used to match known findings
 	Trivial bool          `json:"trivial,omitempty"` // e.g. rejected before the modelled logic ran
 	Replay any            `json:"replay,omitempty"` // concrete material: PEM, bytes, op sequence
+	Dist   map[string]string `json:"-"`             // input dimensions for the distribution table of the evidence
 }
 
 type Problem struct {
@@ -183,6 +184,25 @@ func (r *Runner) reader() {
 		}
 		r.sum.Evaluations++
 		r.sum.Classes[c.Class]++
+		if c.Dist != nil {
+			dist, _ := r.sum.Extra["distribution"].(map[string]map[string]int)
+			if dist == nil {
+				dist = map[string]map[string]int{}
+				r.sum.Extra["distribution"] = dist
+			}
+			oc := "error"
+			if ok, _ := c.Impl["ok"].(bool); ok {
+				oc = "ok"
+			} else if cl, _ := c.Impl["_class"].(string); cl != "" {
+				oc = "error:" + cl
+			}
+			for dim, v := range c.Dist {
+				if dist[dim] == nil {
+					dist[dim] = map[string]int{}
+				}
+				dist[dim][v+" -> "+oc]++
+			}
+		}
 		if r.outcomeOf != nil {
 			r.sum.ImplOutcomes[r.outcomeOf(c)]++
 		}
